@@ -90,28 +90,51 @@ def generate(api):
              rel, "branch order of check_auth", re.S)
     emit("")
 
-    # ---- command/dispatcher.rs: which arms pass `user_id`
+    # ---- command/dispatcher.rs: which arms pass `user_id`, which answer by themselves
     rel = "src/command/dispatcher.rs"
     t = api.src(rel)
-    emit(f"-- {rel}: arms of dispatch_command, split by whether the call passes `user_id`")
+    emit(f"-- {rel}: arms of dispatch_command: handler called with `user_id` / handler called without /")
+    emit("-- no handler called (the arm answers an error itself); and whether a panicking fallback arm exists")
     body = api.grab(t, r"match cmd \{(.*)\n    \}\n\}", rel, "dispatch match", re.S).group(1)
-    arms = list(re.finditer(r"\n        ((?:\w+(?: \{ \.\. \})?(?:\s*\|\s*)?)+) => ", body))
+    arms = list(re.finditer(r"\n        ((?:(?:\w+(?: \{ \.\. \}|\(_\))?|_)(?:\s*\|\s*)?)+) => ", body))
     if not arms:
         raise api.Missing(f"{rel}: no match arms found")
-    ident, anon = [], []
+    ident, anon, refused, seen = [], [], [], []
+    fallback = False
     for i, m in enumerate(arms):
         end = arms[i + 1].start() if i + 1 < len(arms) else len(body)
         arm_body = body[m.end():end]
-        names = re.findall(r"(\w+)(?: \{ \.\. \})?", m.group(1))
+        names = re.findall(r"(\w+)(?: \{ \.\. \}|\(_\))?", m.group(1))
         for n in names:
             if n == "_":
+                # a fallback arm is only understood when it panics
+                api.grab(arm_body, r"unreachable!\(", rel, "fallback arm that is not unreachable!()")
+                fallback = True
                 continue
-            (ident if re.search(r"\buser_id\b", arm_body) else anon).append(n)
-    if "_" not in [n for m in arms for n in re.findall(r"(\w+)", m.group(1))]:
-        raise api.Missing(f"{rel}: catch-all arm (unreachable!) not found")
-    api.grab(body, r"_ => \{.*?unreachable!\(", rel, "catch-all arm panics", re.S)
+            seen.append(n)
+            calls_handler = re.search(r"handle\(", arm_body) is not None
+            if not calls_handler:
+                # no handler: must be a plain error answer
+                api.grab(arm_body, r"Response::error\(\s*StatusCode::BadRequest", rel, f"arm {n} without handler is not a BadRequest answer", re.S)
+                refused.append(n)
+            elif re.search(r"\buser_id\b", arm_body):
+                ident.append(n)
+            else:
+                anon.append(n)
+    # every Command variant must be accounted for (or fall into a panicking fallback)
+    trel = "src/command/types.rs"
+    enum = api.grab(api.src(trel), r"pub enum Command \{(.*?)\n\}\n", trel, "enum Command", re.S).group(1)
+    variants = re.findall(r"\n    (\w+)\s*(?:\{|\(|,)", enum)
+    if len(variants) < 10:
+        raise api.Missing(f"{trel}: could not list the variants of Command")
+    missing = [v for v in variants if v not in seen]
+    if missing and not fallback:
+        raise api.Missing(f"{rel}: Command variants without an arm and no fallback: {missing}")
     emit(f"def identityArms : List (List Char) := {strs(ident)}")
     emit(f"def anonymousArms : List (List Char) := {strs(anon)}")
+    emit(f"def refusedArms : List (List Char) := {strs(refused)}")
+    emit(f"def fallbackPanics : Bool := {'true' if fallback else 'false'}")
+    emit(f"def commandVariants : List (List Char) := {strs(variants)}")
     emit("")
 
     # ---- handlers: the reserved id test and the right each handler asks for
